@@ -2142,8 +2142,8 @@ is_manifest_defined(const string &manifest_name) const {
 bool CPPPreprocessor::
 find_include(Filename &filename, bool angle_quotes, CPPFile::Source &source) const {
   // Now look for the filename.  If we didn't use angle quotes, look first in
-  // the current directory.
-  if (!angle_quotes && filename.exists()) {
+  // the current directory.  A directory of that name is not what is meant.
+  if (!angle_quotes && filename.is_regular_file()) {
     source = CPPFile::S_local;
     return true;
   }
@@ -2151,7 +2151,7 @@ find_include(Filename &filename, bool angle_quotes, CPPFile::Source &source) con
   // Search the same directory as the includer.
   if (!angle_quotes) {
     Filename match(get_file()._filename.get_dirname(), filename);
-    if (match.exists()) {
+    if (match.is_regular_file()) {
       filename = match;
       source = CPPFile::S_alternate;
       return true;
@@ -2168,7 +2168,7 @@ find_include(Filename &filename, bool angle_quotes, CPPFile::Source &source) con
   if (!angle_quotes) {
     for (size_t dir = 0; dir < _quote_include_path.get_num_directories(); ++dir) {
       Filename match(_quote_include_path.get_directory(dir), filename);
-      if (match.exists()) {
+      if (match.is_regular_file()) {
         filename = match;
         source = _quote_include_kind[dir];
         return true;
